@@ -102,6 +102,8 @@ func (f *Fetcher) FetchData(ctx context.Context) (Data, error) {
 	if len(f.data.Cookie) == 0 {
 		err := f.exchangeKeys(ctx)
 		if err != nil {
+			// Do not keep cookies, keys or server data of an incomplete exchange.
+			f.data = Data{}
 			return Data{}, err
 		}
 	}
